@@ -40,6 +40,7 @@ ApplyOp(s, op) ==
     [] op.op = "wunlink"     -> WUnlink(s, op.p, op.t, op.path)
     [] op.op = "root_remove" -> RootRemove(s, op.c)
     [] op.op = "root_wadd"   -> RootWAdd(s, op.t)
+    [] op.op = "alloc_temp"  -> AllocTemp(s, op.o, op.k)
     [] op.op = "call"        -> Call(s, op.kind, op.b, op.g, op.cont)
 RECURSIVE ApplyAll(_, _, _)
 ApplyAll(s, ops, i) == IF i > Len(ops) THEN s ELSE ApplyAll(ApplyOp(s, ops[i]), ops, i + 1)
@@ -64,6 +65,23 @@ PreludeOps ==
             [op |-> "wlink", p |-> x1, t |-> x3, path |-> "borrow_mut"],
             FC,
             [op |-> "unlink", p |-> x2, c |-> x3, path |-> "borrow_mut"] >>
+    \* x1 rooted and holding a weak pointer to x2; x2 -> x3; x2 and x3 are otherwise garbage (finalization:
+    \* resurrecting x2 must carry x3)
+    [] Prelude = "weakchain" ->
+         LET x1 == Ord[1]  x2 == Ord[2]  x3 == Ord[3] IN
+         << [op |-> "alloc_root", o |-> x1, k |-> "N", via |-> "mutate_root"],
+            [op |-> "alloc_into", o |-> x2, k |-> "N", p |-> x1, path |-> "borrow_mut"],
+            [op |-> "alloc_into", o |-> x3, k |-> "N", p |-> x2, path |-> "borrow_mut"],
+            [op |-> "wlink", p |-> x1, t |-> x2, path |-> "borrow_mut"],
+            [op |-> "unlink", p |-> x1, c |-> x2, path |-> "borrow_mut"] >>
+    \* one of each fate in list order: plain garbage x3, weakly held garbage x2, the survivor x1 (sweeps of three)
+    [] Prelude = "mixed" ->
+         LET x1 == Ord[1]  x2 == Ord[2]  x3 == Ord[3] IN
+         << [op |-> "alloc_root", o |-> x1, k |-> "N", via |-> "mutate_root"],
+            [op |-> "alloc_into", o |-> x2, k |-> "N", p |-> x1, path |-> "borrow_mut"],
+            [op |-> "wlink", p |-> x1, t |-> x2, path |-> "borrow_mut"],
+            [op |-> "unlink", p |-> x1, c |-> x2, path |-> "borrow_mut"],
+            [op |-> "alloc_temp", o |-> x3, k |-> "N"] >>
     \* a rooted chain x1 -> x2 -> x3 that has survived a cycle
     [] Prelude = "chain" ->
          LET x1 == Ord[1]  x2 == Ord[2]  x3 == Ord[3] IN
@@ -86,7 +104,9 @@ Unswept(s) == LET q == ListSeq(s) IN
   IF s.phase = "Sweep" /\ s.sweep # NoObj THEN {q[i] : i \in IndexOf(q, s.sweep)..Len(q)} ELSE {}
 
 \* coverage class of a transition
-Col(s, o) == IF o = NoObj THEN "-" ELSE IF ~s.alive[o] THEN "fresh" ELSE s.color[o]
+\* (a trailing "d": the dead shell of a destructed value -- barriers and sweeps must treat it like any block)
+Col(s, o) == IF o = NoObj THEN "-" ELSE IF ~s.alive[o] THEN "fresh"
+             ELSE IF s.live[o] THEN s.color[o] ELSE s.color[o] \o "d"
 PosOf(s, o) == IF s.phase # "Sweep" \/ o = NoObj THEN "-" ELSE IF o \in Unswept(s) THEN "unswept" ELSE "swept"
 Fld(op, f) == IF f \in DOMAIN op THEN op[f] ELSE NoObj
 ClassOf(s, op, s2) ==
